@@ -113,6 +113,7 @@ type checker struct {
 	kfPrinted map[string]bool
 	seenSig   map[string]bool
 	inconclusive []string
+	raceCrashMine bool // set while handling a crash shown to need the concurrent schedule
 }
 
 func (c *checker) knownIDs(domain string) string {
@@ -174,6 +175,15 @@ func tail(s string, n int) string {
 	return s
 }
 
+// headTail keeps the beginning (where a Go traceback names the failing frame)
+// and the end of a long text.
+func headTail(s string, n int) string {
+	if len(s) > 2*n {
+		return s[:n] + "\n…\n" + s[len(s)-n:]
+	}
+	return s
+}
+
 // runBatch fans N runs of one domain out over the workers.
 func (c *checker) runBatch(bin string, domain string, N int, extraEnv []string) *batchResult {
 	br := newBatchResult(domain)
@@ -199,8 +209,14 @@ func (c *checker) runBatch(bin string, domain string, N int, extraEnv []string) 
 				jr := filepath.Join(c.workDir, fmt.Sprintf("%s-w%d-a%d.journal", domain, w, attempt))
 				os.Remove(out)
 				os.Remove(jr)
-				cmd := exec.Command(bin, "worker", "-prop", c.prop, "-seed", fmt.Sprint(c.seed), "-from", fmt.Sprint(from), "-to", fmt.Sprint(N),
-					"-stride", fmt.Sprint(W), "-tier", c.tier, "-domain", domain, "-known", c.knownIDs(domain), "-out", out, "-journal", jr, "-deadline", fmt.Sprint(deadline), "-skip", strings.Join(skips, ","))
+				wargs := []string{"worker", "-prop", c.prop, "-seed", fmt.Sprint(c.seed), "-from", fmt.Sprint(from), "-to", fmt.Sprint(N),
+					"-stride", fmt.Sprint(W), "-tier", c.tier, "-domain", domain, "-known", c.knownIDs(domain), "-out", out, "-journal", jr, "-deadline", fmt.Sprint(deadline), "-skip", strings.Join(skips, ",")}
+				for _, e := range extraEnv {
+					if e == "VERIF_ISOLATE=1" {
+						wargs = append(wargs, "-isolate")
+					}
+				}
+				cmd := exec.Command(bin, wargs...)
 				cmd.Env = append(append(os.Environ(), "GOMAXPROCS=1"), extraEnv...)
 				var stderr bytes.Buffer
 				cmd.Stderr = &stderr
@@ -265,7 +281,7 @@ func (c *checker) runBatch(bin string, domain string, N int, extraEnv []string) 
 					mu.Unlock()
 					return
 				}
-				br.crashes = append(br.crashes, crashRec{run: crashed, stderr: tail(stderr.String(), 4000), points: crashPoints})
+				br.crashes = append(br.crashes, crashRec{run: crashed, stderr: headTail(stderr.String(), 3000), points: crashPoints})
 				// keep what the worker had flushed; resume from its flush point, skipping the killer
 				skips = append(skips, fmt.Sprint(crashed))
 				if ok {
@@ -361,7 +377,7 @@ func (c *checker) execFile(bin, f string, extraEnv []string, timeout time.Durati
 			errLines = append(errLines, ln)
 		}
 	}
-	cv.stderr = tail(strings.Join(errLines, "\n"), 6000)
+	cv.stderr = headTail(strings.Join(errLines, "\n"), 5000)
 	got := false
 	for _, ln := range strings.Split(so.String(), "\n") {
 		if strings.HasPrefix(ln, "RESULT ") {
@@ -382,7 +398,7 @@ func (c *checker) crashViolation(tr *Trace, cv *childVerdict) *Violation {
 	if !cv.crashed {
 		return nil
 	}
-	mine := c.cfg.crashIsMine || cv.inObs
+	mine := c.cfg.crashIsMine || cv.inObs || c.raceCrashMine
 	if !mine && cv.lastStep >= 0 && cv.lastStep < len(tr.Steps) {
 		s := tr.Steps[cv.lastStep]
 		or := propOracles[c.prop]
@@ -406,7 +422,11 @@ func (c *checker) crashViolation(tr *Trace, cv *childVerdict) *Violation {
 			break
 		}
 	}
-	return &Violation{Prop: c.prop, Class: "crash", Oracle: "process-crash", Step: cv.lastStep, Detail: "the process died during the run: " + first}
+	orc := "process-crash"
+	if c.raceCrashMine {
+		orc = "C16-crash-under-schedule"
+	}
+	return &Violation{Prop: c.prop, Class: "crash", Oracle: orc, Step: cv.lastStep, Detail: "the process died during the run: " + first}
 }
 
 func sameFailure(a, b *Violation) bool {
@@ -700,6 +720,12 @@ func (c *checker) handleViolations(bin string, br *batchResult, extraEnv []strin
 	}
 	reported := 0
 	o := genOptsFor(c.tier, br.domain, runtime.GOARCH)
+	o.churnBias = false
+	for _, e := range extraEnv {
+		if e == "VERIF_POINTS=1" {
+			o.churnBias = true
+		}
+	}
 	for _, cd := range cands {
 		sig := "crash"
 		if cd.v != nil {
@@ -708,6 +734,7 @@ func (c *checker) handleViolations(bin string, br *batchResult, extraEnv []strin
 		if seen[sig] || reported >= 3 {
 			continue
 		}
+		c.raceCrashMine = false
 		tr := genTrace(c.prop, c.seed, cd.run, o)
 		tr.Points = cd.points
 		confirmTries := 1
@@ -723,6 +750,22 @@ func (c *checker) handleViolations(bin string, br *batchResult, extraEnv []strin
 			want = cv.Violation
 			if want == nil {
 				want = c.crashViolation(tr, cv)
+			}
+		}
+		if want == nil && cv.crashed && c.cfg.engine == "race" && (strings.Contains(cv.stderr, "Clement-Jean/go-art") || strings.Contains(cv.stderr, "/repo/")) {
+			// a hard crash inside the library during a multi-goroutine run: it is this
+			// property's business only if the same operations on one goroutine are fine
+			seq := cloneTrace(tr)
+			seq.Gs = 1
+			seq.Points = nil
+			sv := c.execChild(bin, seq, extraEnv, 5*time.Minute)
+			if !sv.crashed && !sv.timedOut && sv.Violation == nil {
+				c.raceCrashMine = true
+				want = c.crashViolation(tr, cv)
+				if want != nil {
+					want.Oracle = "C16-crash-under-schedule"
+					want.Detail += " (the same operations executed by a single goroutine complete normally)"
+				}
 			}
 		}
 		if want == nil {
@@ -1149,6 +1192,21 @@ func (c *checker) replay(path string) int {
 		env = []string{"VERIF_PROCS=4", "GORACE=halt_on_error=0 log_path=" + filepath.Join(c.workDir, "race-replay")}
 		tries = 6
 	}
+	if len(rf.Trace.Points) > 0 {
+		// the trace places events at statement points: it needs the instrumented copy
+		name, flags := c.cfg.binName+"-points", c.cfg.buildFlags
+		if c.cfg.engine == "race" {
+			name, flags = "sim-race-points", []string{"-race"}
+			env = append(env, "VERIF_PROCS=1")
+		}
+		b, ok, info := c.buildInstrumented(name, flags)
+		if !ok {
+			fmt.Fprintln(os.Stderr, "cannot build the instrumented copy:", info)
+			return 2
+		}
+		bin = b
+		env = append(env, "VERIF_POINTS=1")
+	}
 	var cv *childVerdict
 	for a := 0; a < tries; a++ {
 		cv = c.execFile(bin, path, env, 10*time.Minute)
@@ -1158,6 +1216,9 @@ func (c *checker) replay(path string) int {
 	}
 	got := cv.Violation
 	if got == nil {
+		if rf.Violation != nil && rf.Violation.Oracle == "C16-crash-under-schedule" {
+			c.raceCrashMine = true
+		}
 		got = c.crashViolation(rf.Trace, cv)
 	}
 	if got != nil {
